@@ -226,9 +226,20 @@ def instants(a, b):
     yield b
 
 
+def ms_aligned(x):
+    if isinstance(x, timedelta):
+        return x % timedelta(milliseconds=1) == timedelta(0)
+    return x.microsecond % 1000 == 0
+
+
+def floor_to_ms(t):
+    return t - timedelta(microseconds=t.microsecond % 1000)
+
+
 def spec_globals(modnames):
     g = {"timedelta": timedelta, "datetime": datetime, "timezone": timezone, "instants": instants,
-         "EPOCH": EPOCH, "fresh": lambda x: True, "allocated": lambda x: True}
+         "EPOCH": EPOCH, "fresh": lambda x: True, "allocated": lambda x: True, "ms_aligned": ms_aligned,
+         "floor_to_ms": floor_to_ms}
     for m in modnames:
         mod = importlib.import_module(m)
         for k, v in vars(mod).items():
@@ -330,6 +341,22 @@ class Gen:
             if rng.random() < 0.25:
                 return None
             return self.value(ty[9:-1], hints)
+        if ty == "List[Event]" and self.scope.get("nonoverlap"):
+            # a sequence of non-overlapping events with distinct starts, in random order
+            n = rng.randint(0, self.scope.get("list", 4))
+            t = BASE_US + rng.randint(0, 3) * MS
+            items = []
+            data_pool = self.scope.get("data", [{}, {"a": 1}, {"a": 2}])
+            for _ in range(n):
+                d = rng.choice(self.scope.get("durs", [0, 1, 2, 3])) * MS
+                items.append({"$k": "Event", "ref": self.ref(), "id": None, "ts": t, "dur": d,
+                              "data": copy.deepcopy(rng.choice(data_pool))})
+                t = t + d + rng.choice(self.scope.get("gaps", [0, 1, 2, 3, 4])) * MS
+                if d == 0 and items and t == items[-1]["ts"]:
+                    t += MS
+            if not self.scope.get("sorted"):
+                rng.shuffle(items)
+            return {"$k": "list", "ref": self.ref(), "items": items}
         if ty.startswith("List["):
             n = rng.randint(0, self.scope.get("list", 3))
             return {"$k": "list", "ref": self.ref(), "items": [self.value(ty[5:-1], hints) for _ in range(n)]}
